@@ -108,9 +108,12 @@ func BodyOp(r *rand.Rand, p Profile) engine.Op {
 		return engine.Op{Kind: "loadmark", P: pg, Seed: seed, Off: r.Intn(1 << 12), Len: r.Intn(1 << 12)}
 	case x < 68:
 		return engine.Op{Kind: "read", P: pg}
-	case x < 72:
+	case x < 70:
 		// Load without MarkDirty: the page gets a write buffer but stays clean
 		return engine.Op{Kind: "load", P: pg}
+	case x < 72:
+		// MarkDirty without Load: the page is written back as it is
+		return engine.Op{Kind: "markdirty", P: pg}
 	case x < 84:
 		return engine.Op{Kind: "free", P: pg}
 	case x < 89:
